@@ -15,9 +15,10 @@ mv /tmp/seed_demo_aside.rs tests/seed_demo.rs
 echo "== demo with change" | tee -a $OUT/verify.log
 (cargo test --offline --features rayon,serde --test seed_demo 2>&1 || true) | grep -E "^test result|panicked|error\[" | sort -r | head -6 | tee -a $OUT/verify.log
 echo "== demo without change" | tee -a $OUT/verify.log
-git stash push -q -- src
+# (no git stash: the stash is shared between worktrees)
+git checkout -q -- src; git clean -fdq -- src
 (cargo test --offline --features rayon,serde --test seed_demo 2>&1 || true) | grep -E "^test result|panicked|error\[" | sort -r | head -6 | tee -a $OUT/verify.log
-git stash pop -q
+git apply $OUT/patch.diff
 echo "== checks against the change applied to /repo" | tee -a $OUT/verify.log
 cd /repo && git apply $OUT/patch.diff && (cd /verif && ./check all --quiet --evidence-dir /tmp/seed-evidence --keys-out $OUT/keys.json 2>&1 | grep -E "VIOLATION|INFRA" | tee -a $OUT/verify.log); git -C /repo checkout -- . && git -C /repo clean -fdq -- src ; git -C /repo status --short | head -3
 python3 - <<PY
